@@ -15,7 +15,13 @@ inductive ClientKind where | blocking | async
 inductive CertKind where | valid | wrongName | expired | selfSigned | unknownCa
   deriving DecidableEq, Repr, Inhabited
 /-- the extra root handed to `ca_cert` -/
-inductive RootArg where | none | correctPem | correctDer | unrelated
+inductive RootArg where
+  | none | correctPem | correctDer | unrelated
+  /-- `ca_cert` called twice: first a root with the *same subject name* as the correct one but another key
+      (a CA key roll-over), then the correct root -/
+  | decoyThenCorrect
+  /-- the same two roots in the other order -/
+  | correctThenDecoy
   deriving DecidableEq, Repr, Inhabited
 /-- the calls of `ignore_tls_errors(flag)` made on one builder, in order (none: the setter was never called) -/
 abbrev IgnoreArg := List Bool
@@ -24,7 +30,7 @@ inductive HostKind where | dns | ip
   deriving DecidableEq, Repr, Inhabited
 
 /-- certificate authorities in play -/
-inductive Ca where | correct | other | unrelatedRoot | self
+inductive Ca where | correct | other | unrelatedRoot | self | sameNameDecoy
   deriving DecidableEq, Repr, Inhabited
 
 /-- the builder: the field starts as false and every call of the setter overwrites it -/
@@ -33,12 +39,14 @@ def ignoreFlag (calls : IgnoreArg) : Bool := calls.foldl (fun _ flag => flag) fa
 inductive Enc where | pem | der
   deriving DecidableEq, Repr, Inhabited
 
-/-- what was passed to `ca_cert`: the CA and the encoding of the bytes -/
-def rootData : RootArg → Option (Ca × Enc)
-  | .none => Option.none
-  | .correctPem => some (.correct, .pem)
-  | .correctDer => some (.correct, .der)
-  | .unrelated => some (.unrelatedRoot, .pem)
+/-- what was passed to `ca_cert`, call by call: the CA and the encoding of the bytes -/
+def rootData : RootArg → List (Ca × Enc)
+  | .none => []
+  | .correctPem => [(.correct, .pem)]
+  | .correctDer => [(.correct, .der)]
+  | .unrelated => [(.unrelatedRoot, .pem)]
+  | .decoyThenCorrect => [(.sameNameDecoy, .pem), (.correct, .pem)]
+  | .correctThenDecoy => [(.correct, .pem), (.sameNameDecoy, .pem)]
 
 /-- decoders as the libraries implement them -/
 def nativeFromPem (e : Enc) : Bool := e = .pem          -- native_tls::Certificate::from_pem fails on DER
@@ -80,14 +88,13 @@ structure TlsParams where
 /-- what each backend block configures -/
 def tlsParams (c : ClientKind) (b : Backend) (ig : IgnoreArg) (root : RootArg) : TlsParams :=
   let flag := ignoreFlag ig
+  -- every `ca_cert` call is pushed onto a list and each block installs the whole list, one by one
   let (roots, fails) : List Ca × Bool :=
-    match rootData root with
-    | Option.none => ([], false)
-    | some (ca, e) =>
-      match rootEffective c b e with
-      | some true => ([ca], false)
-      | some false => ([], false)
-      | Option.none => ([], true)
+    (rootData root).foldl (fun (acc : List Ca × Bool) (r : Ca × Enc) =>
+      match rootEffective c b r.2 with
+      | some true => (acc.1 ++ [r.1], acc.2)
+      | some false => acc
+      | Option.none => (acc.1, true)) ([], false)
   match c, b with
   | .blocking, .rustls => ⟨false, false, flag, roots, fails⟩
   | _, _ => ⟨flag, flag, false, roots, fails⟩
